@@ -61,9 +61,11 @@ func fVersion(m dsl.Matcher) {
 	m.Match(`$x.Unix() / 1000`).Where(m.GoVersion().LessThan("1.17")).Report(`F:old-unix`)
 }
 
+// Comment patterns are anchored: an unanchored pattern makes the library report at the place inside the comment
+// where the regexp matched, which is what such a user rule asks for and not a position go-critic chose.
 func fComment(m dsl.Matcher) {
-	m.MatchComment(`//\s*TODO`).Report(`F:todo`)
-	m.MatchComment(`/\*(?P<body>[^*]*)\*/`).Where(m["body"].Text.Matches(`FIXME`)).Report(`F:fixme $body`)
+	m.MatchComment(`^//\s*TODO`).Report(`F:todo`)
+	m.MatchComment(`^/\*(?P<body>[^*]*)\*/`).Where(m["body"].Text.Matches(`FIXME`)).Report(`F:fixme $body`)
 }
 
 func fSuggest(m dsl.Matcher) {
